@@ -70,6 +70,8 @@ def _scenario(beh, stream, kind, seed, flight="app"):
         x = rng.randrange(1 << 31)
         cd["isn"] = (x, x + rng.choice([5, 100, 517]))
     sc = dict(conns=[cd], l2=l2)
+    if seed % 3 == 0:       # control segments of the connection itself (pure ACK, FIN of either side, RST) at seeded positions: they carry no data and
+        sc["zoo"], sc["zoo_only"] = seed, ["tcp_pure_ack", "tcp_fin", "tcp_fin_s", "tcp_rst", "tcp_rst_s"]     # say nothing about the data captured after them
     # locate the flight
     from harness.tlsrun import build_conn
     c = build_conn(cd)
